@@ -206,7 +206,8 @@ def run_shard(shard):
                 wuh = (w * uhat).sum(1)
                 diff = uhat - u
                 par = diff - (diff * w).sum(1, keepdims=True) * w / np.maximum((w * w).sum(1, keepdims=True), 1e-300)
-                _state["uhat_ok"] = bool(np.all(np.abs(par) <= 1e-9 * (1 + np.abs(u))) and np.all(wuh[wu > -30] > -1))
+                ptol = (1e-9 if x64 else 1e-4) * (1 + np.abs(u) + np.abs(diff))
+                _state["uhat_ok"] = bool(np.all(np.abs(par) <= ptol) and np.all(wuh[wu > (-30 if x64 else -12)] > -1))
                 a = (w * x).sum(1) + bias
                 act = np.tanh(a) if ns is None else np.where(a >= 0, a, ns * a)
                 return x + uhat * act[:, None]
